@@ -530,7 +530,38 @@ def reader():
                 bg_compiled=int(md.group(2)))
 
 
-ALL = dict(reader=reader, encode_ladder=encode_ladder, sess_consts=sess_consts, mpmc=mpmc, sched=sched, logger_facts=logger_facts, xml_facts=xml_facts, timer_consts=timer_consts, schema_utest=schema_utest, consts=consts, itoa_table=itoa_table, mon_days=mon_days, tables_utest=tables_utest)
+def dtoa_consts():
+    """constants of modp_dtoa (runtime/modp_numtoa.c) and fast_atof (f8utils.hpp); FIX8_DEFAULT_PRECISION is in Gen/Consts"""
+    s = _src('runtime/modp_numtoa.c')
+    m = re.search(r'static const double pow10_\[\]\s*=\s*\{([^}]*)\}', s)
+    if not m:
+        raise FactError('pow10_[] table not found in runtime/modp_numtoa.c')
+    tab = [e.strip() for e in m.group(1).split(',')]
+    if not all(re.fullmatch(r'\d+', e) for e in tab):
+        raise FactError('unexpected pow10_[] entry in %r' % tab)
+    t = re.search(r'const double thres_max\s*=\s*\(double\)\((0x[0-9A-Fa-f]+|\d+)\)', s)
+    if not t:
+        raise FactError('thres_max not found in modp_dtoa')
+    c = re.search(r'if \(prec < 0\) \{\s*prec = 0;\s*\} else if \(prec > (\d+)\) \{.*?prec = (\d+);', s, re.S)
+    if not c or c.group(1) != c.group(2):
+        raise FactError('precision clamp of modp_dtoa not recognised')
+    if not re.search(r'if \(value > thres_max\)\s*return sprintf', s):
+        raise FactError('modp_dtoa no longer falls back to sprintf above thres_max')
+    u = _src('include/fix8/f8utils.hpp')
+    a = re.search(r'inline fp_type fast_atof.*?#else\s*if \(expon > (\d+)\)\s*expon = (\d+);', u, re.S)
+    if not a or a.group(1) != a.group(2):
+        raise FactError('exponent clamp of fast_atof not recognised')
+    cfg = _src('include/fix8/f8config.h')
+    if re.search(r'^\s*#define FIX8_USE_SINGLE_PRECISION', cfg, re.M):
+        raise FactError('FIX8_USE_SINGLE_PRECISION is set: fp_type is float, the C08 model is about double')
+    _emit('DtoaConsts', '/-- `pow10_[]` of runtime/modp_numtoa.c -/\ndef dtoaPow10 : List Nat := [%s]\n\n'
+          '/-- `thres_max`: above it modp_dtoa reverts to `sprintf("%%e")` -/\ndef dtoaThresMax : Nat := %d\n\n'
+          '/-- upper clamp of `prec` in modp_dtoa -/\ndef dtoaMaxPrec : Nat := %s\n\n'
+          '/-- clamp of the decimal exponent in fast_atof (double build) -/\ndef atofMaxExp : Nat := %s\n'
+          % (', '.join(tab), int(t.group(1), 0), c.group(1), a.group(1)))
+
+
+ALL = dict(dtoa_consts=dtoa_consts, reader=reader, encode_ladder=encode_ladder, sess_consts=sess_consts, mpmc=mpmc, sched=sched, logger_facts=logger_facts, xml_facts=xml_facts, timer_consts=timer_consts, schema_utest=schema_utest, consts=consts, itoa_table=itoa_table, mon_days=mon_days, tables_utest=tables_utest)
 
 
 def generate(names):
